@@ -93,6 +93,8 @@ pub struct Msg {
 pub struct Ctx {
     pub rln: Option<RLN>,
     pub msgs: HashMap<String, Msg>,
+    /// configuration of the current instance (a persistent location when the history asks for a restart)
+    pub cfg: Value,
 }
 
 fn get_root(r: &RLN) -> Option<Fr> {
@@ -411,6 +413,9 @@ pub fn apply_mods(mut b: Vec<u8>, mods: &[Value]) -> Vec<u8> {
                         "+1" => cur.wrapping_add(1),
                         "-1" => cur.wrapping_sub(1),
                         "0" => 0,
+                        "+2^32" => cur.wrapping_add(1 << 32),
+                        "+2^40" => cur.wrapping_add(1 << 40),
+                        "+2^63" => cur.wrapping_add(1 << 63),
                         "2^31" => 1 << 31,
                         "2^32" => 1 << 32,
                         "2^63" => 1 << 63,
@@ -476,7 +481,8 @@ fn carried_signal(b: &[u8]) -> Option<&[u8]> {
 pub fn verify(cx: &mut Ctx, op: &Value, it: &mut Interner) -> Value {
     let kind = op["kind"].as_str().unwrap();
     let mut ev = json!({"t": "verify", "kind": kind, "msg": op["msg"], "mods": op.get("mods").cloned().unwrap_or(json!([])),
-                        "tag": op.get("tag").cloned().unwrap_or(json!(""))});
+                        "tag": op.get("tag").cloned().unwrap_or(json!("")),
+                        "must": op.get("must").cloned().unwrap_or(json!(""))});
     let Some(r) = cx.rln.as_mut() else {
         ev["res"] = json!("noinstance");
         return ev;
@@ -649,20 +655,52 @@ pub fn tree_op(cx: &mut Ctx, op: &Value, it: &mut Interner) -> Value {
     ev
 }
 
-pub fn run(scenario: &[Value], it: &mut Interner, out: &mut Vec<Value>) {
+pub fn run(scenario: &[Value], it: &mut Interner, out: &mut Vec<Value>, dbdir: &str) {
     it.want_bytes = true;
-    let mut cx = Ctx { rln: None, msgs: HashMap::new() };
+    let mut cx = Ctx { rln: None, msgs: HashMap::new(), cfg: Value::Null };
+    let mut ndb = 0usize;
+    let mut dbs: Vec<String> = Vec::new();
     for (k, op) in scenario.iter().enumerate() {
         let mut ev = match op["c"].as_str().unwrap() {
             "reset" => {
                 drop(cx.rln.take());
                 cx.msgs.clear();
-                let r = catch(AssertUnwindSafe(|| new_rln(20, &Value::Null)));
+                cx.cfg = Value::Null;
+                if op.get("persist").and_then(|x| x.as_bool()).unwrap_or(false) {
+                    ndb += 1;
+                    let path = format!("{dbdir}/db{ndb}");
+                    let _ = std::fs::remove_dir_all(&path);
+                    cx.cfg = json!({"path": path, "temporary": false});
+                    dbs.push(path);
+                }
+                let cfg = cx.cfg.clone();
+                let r = catch(AssertUnwindSafe(|| new_rln(20, &cfg)));
                 let mut ev = json!({"t": "reset"});
                 match r {
                     Ok(Ok(r)) => {
                         cx.rln = Some(r);
                         ev["res"] = json!("ok");
+                    }
+                    _ => ev["res"] = json!("err"),
+                }
+                ev
+            }
+            "reopen" => {
+                // the node restarts: flush, close, open the same location again (messages on the wire stay)
+                let mut ev = json!({"t": "reopen"});
+                if let Some(mut r) = cx.rln.take() {
+                    let f = catch(AssertUnwindSafe(|| r.flush()));
+                    ev["flush"] = json!(matches!(f, Ok(Ok(()))));
+                    drop(r);
+                }
+                let cfg = cx.cfg.clone();
+                match catch(AssertUnwindSafe(|| new_rln(20, &cfg))) {
+                    Ok(Ok(r)) => {
+                        ev["res"] = json!("ok");
+                        if let Some(rt) = get_root(&r) {
+                            ev["treeroot"] = json!(fr_le_bytes(&rt));
+                        }
+                        cx.rln = Some(r);
                     }
                     _ => ev["res"] = json!("err"),
                 }
@@ -676,5 +714,9 @@ pub fn run(scenario: &[Value], it: &mut Interner, out: &mut Vec<Value>) {
         };
         ev["k"] = json!(k);
         out.push(ev);
+    }
+    drop(cx.rln.take());
+    for d in dbs {
+        let _ = std::fs::remove_dir_all(d);
     }
 }
